@@ -18,81 +18,238 @@ theorem assoc_eq_lookup {α} (k : String) : ∀ l : List (String × α), assoc k
 
 /-! ## the fragments
 
+`FragR env G lvl Γ e n τ`: the expression `e` (as parsed) has type `τ` and `n` is its normal form
+(what `Normalizer` makes of it: equal to `e` up to level 4).
 `lvl = 1`: ground set-valued expressions; `lvl = 2`: + globals with an interpretation;
-`lvl = 3`: + quantifiers and the declarative set-builder over one plain variable.
+`lvl = 3`: + quantifiers and the declarative set-builder over one plain variable;
+`lvl = 4`: + the recursive constructor `R{x := init | [cond |] step}` and the imperative constructor
+`I{value | blocks}` (iterate / assign / condition blocks) over plain variables;
+`lvl = 5`: + quantifiers with an enumerated declaration `Q x₁,…,xₙ ∈ S . P` (normal form: nested quantifiers).
 `G` types the globals, the index `Γ` types the bound variables in scope (no shadowing, no bound
 variable called like a global: what the checker enforces).  The typing is this fragment's own
 (monomorphic: `∅` is given the type of its context); every type is `R0`-free. -/
-inductive Frag (env : Env) (G : TCtx) (lvl : Nat) : TCtx → Ast → ExprTy → Prop where
-  | lit (Γ : TCtx) (n lo hi : Int) : Frag env G lvl Γ (.node .LIT_INTEGER (.int n) lo hi []) (.ty (.base "Z"))
-  | arith {Γ : TCtx} {t : Tok} {a b : Ast} (d : TokData) (lo hi : Int) : isArith t →
-      Frag env G lvl Γ a (.ty (.base "Z")) → Frag env G lvl Γ b (.ty (.base "Z")) →
-      Frag env G lvl Γ (.node t d lo hi [a, b]) (.ty (.base "Z"))
-  | card {Γ : TCtx} {a : Ast} {τ : Ty} (d : TokData) (lo hi : Int) : Frag env G lvl Γ a (.ty (.coll τ)) →
-      Frag env G lvl Γ (.node .CARD d lo hi [a]) (.ty (.base "Z"))
-  | cmp {Γ : TCtx} {t : Tok} {a b : Ast} (d : TokData) (lo hi : Int) : isIntCmp t →
-      Frag env G lvl Γ a (.ty (.base "Z")) → Frag env G lvl Γ b (.ty (.base "Z")) →
-      Frag env G lvl Γ (.node t d lo hi [a, b]) .logic
-  | eq {Γ : TCtx} {t : Tok} {a b : Ast} {τ : Ty} (d : TokData) (lo hi : Int) : isEq t →
-      Frag env G lvl Γ a (.ty τ) → Frag env G lvl Γ b (.ty τ) → Frag env G lvl Γ (.node t d lo hi [a, b]) .logic
-  | not {Γ : TCtx} {a : Ast} (d : TokData) (lo hi : Int) : Frag env G lvl Γ a .logic →
-      Frag env G lvl Γ (.node .NOT d lo hi [a]) .logic
-  | conn {Γ : TCtx} {t : Tok} {a b : Ast} (d : TokData) (lo hi : Int) : isConn t →
-      Frag env G lvl Γ a .logic → Frag env G lvl Γ b .logic → Frag env G lvl Γ (.node t d lo hi [a, b]) .logic
-  | mem {Γ : TCtx} {t : Tok} {a b : Ast} {τ : Ty} (d : TokData) (lo hi : Int) : isMemTok t → b.id ≠ .BOOLEAN →
-      Frag env G lvl Γ a (.ty τ) → Frag env G lvl Γ b (.ty (.coll τ)) → Frag env G lvl Γ (.node t d lo hi [a, b]) .logic
-  | memPow {Γ : TCtx} {t : Tok} {a b : Ast} {τ : Ty} (d d' : TokData) (lo hi lo' hi' : Int) : isMemTok t →
-      Frag env G lvl Γ a (.ty (.coll τ)) → Frag env G lvl Γ b (.ty (.coll τ)) →
-      Frag env G lvl Γ (.node t d lo hi [a, .node .BOOLEAN d' lo' hi' [b]]) .logic
-  | sub {Γ : TCtx} {t : Tok} {a b : Ast} {τ : Ty} (d : TokData) (lo hi : Int) : isSubTok t →
-      Frag env G lvl Γ a (.ty (.coll τ)) → Frag env G lvl Γ b (.ty (.coll τ)) →
-      Frag env G lvl Γ (.node t d lo hi [a, b]) .logic
-  | empty (Γ : TCtx) {τ : Ty} (d : TokData) (lo hi : Int) : noAny τ = true →
-      Frag env G lvl Γ (.node .LIT_EMPTYSET d lo hi []) (.ty (.coll τ))
+
+/-- a block of `I{…}` over a plain variable: source and normal form of the expression part -/
+inductive Blk where
+  | iter (x : String) (dom dom' : Ast) (σ : Ty) (d : TokData) (lo hi dlo dhi : Int)   -- `x :∈ dom`
+  | asg (x : String) (ex ex' : Ast) (σ : Ty) (d : TokData) (lo hi dlo dhi : Int)        -- `x := e`
+  | guard (g g' : Ast)                                                                -- a condition
+
+namespace Blk
+def src : Blk → Ast
+  | .iter x dom _ _ d lo hi dlo dhi => .node .ITERATE d lo hi [.node .ID_LOCAL (.text x) dlo dhi [], dom]
+  | .asg x ex _ _ d lo hi dlo dhi => .node .ASSIGN d lo hi [.node .ID_LOCAL (.text x) dlo dhi [], ex]
+  | .guard g _ => g
+def core : Blk → Ast
+  | .iter x _ dom' _ d lo hi dlo dhi => .node .ITERATE d lo hi [.node .ID_LOCAL (.text x) dlo dhi [], dom']
+  | .asg x _ ex' _ d lo hi dlo dhi => .node .ASSIGN d lo hi [.node .ID_LOCAL (.text x) dlo dhi [], ex']
+  | .guard _ g' => g'
+/-- the expression of the block -/
+def expr : Blk → Ast
+  | .iter _ dom _ _ _ _ _ _ _ => dom
+  | .asg _ ex _ _ _ _ _ _ _ => ex
+  | .guard g _ => g
+def expr' : Blk → Ast
+  | .iter _ _ dom' _ _ _ _ _ _ => dom'
+  | .asg _ _ ex' _ _ _ _ _ _ => ex'
+  | .guard _ g' => g'
+def ety : Blk → ExprTy
+  | .iter _ _ _ σ _ _ _ _ _ => .ty (.coll σ)
+  | .asg _ _ _ σ _ _ _ _ _ => .ty σ
+  | .guard _ _ => .logic
+/-- the bound variables after the block -/
+def ctx (Γ : List (String × Ty)) : Blk → List (String × Ty)
+  | .iter x _ _ σ _ _ _ _ _ => (x, σ) :: Γ
+  | .asg x _ _ σ _ _ _ _ _ => (x, σ) :: Γ
+  | .guard _ _ => Γ
+/-- the variable of the block is new; a condition is no block node -/
+def side (env : Env) (σ : List (String × (String × Int))) (Γ : List (String × Ty)) : Blk → Prop
+  | .iter x _ _ _ _ _ _ _ _ => lookup x Γ = none ∧ lookup x env.globals = none ∧ ∀ r ∈ σ, r.2.1 ≠ x
+  | .asg x _ _ _ _ _ _ _ _ => lookup x Γ = none ∧ lookup x env.globals = none ∧ ∀ r ∈ σ, r.2.1 ≠ x
+  | .guard g g' => g.id ≠ .ITERATE ∧ g.id ≠ .ASSIGN ∧ g'.id ≠ .ITERATE ∧ g'.id ≠ .ASSIGN
+end Blk
+
+/-- the bound variables after a list of blocks -/
+def ctxAfter (Γ : List (String × Ty)) (bs : List Blk) : List (String × Ty) := bs.foldl Blk.ctx Γ
+
+theorem ctxAfter_nil (Γ : List (String × Ty)) : ctxAfter Γ [] = Γ := rfl
+theorem ctxAfter_snoc (Γ : List (String × Ty)) (bs : List Blk) (b : Blk) : ctxAfter Γ (bs ++ [b]) = b.ctx (ctxAfter Γ bs) := by
+  simp [ctxAfter]
+
+/-- realisation of the components of tuple patterns in the normal form: `x ↦ (nn, i)` = `x` is read as `pr_i(nn)` -/
+abbrev Rz := List (String × (String × Int))
+
+/-- a variable of an enumerated declaration / a component of a flat tuple pattern: name and range of its node -/
+abbrev EDecl := String × Int × Int
+
+/-- the name `ProcessTupleDeclaration` tries first for the generated variable: `'@'` + the component names -/
+def candName (names : List String) : String := "@" ++ String.join names
+/-- the signature under which the normaliser remembers the name it gave to a pattern -/
+def sigOf (names : List String) : String := String.join (names.map (· ++ ","))
+
+/-- the components of the pattern are the projections `i, i+1, …` of the generated variable -/
+def patRz (nn : String) : List EDecl → Int → Rz
+  | [], _ => []
+  | q :: qs, i => (q.1, (nn, i)) :: patRz nn qs (i + 1)
+
+/-- the scope after a tuple pattern (the first component is bound first) -/
+def patCtx (Γ : List (String × Ty)) : List EDecl → List Ty → List (String × Ty)
+  | q :: qs, ty :: ts => patCtx ((q.1, ty) :: Γ) qs ts
+  | _, _ => Γ
+
+def declNode (q : EDecl) : Ast := .node .ID_LOCAL (.text q.1) q.2.1 q.2.2 []
+
+/-- the scope after the variables of an enumerated declaration (the first one is the outermost) -/
+def declCtx (τ : Ty) (Γ : List (String × Ty)) (xs : List EDecl) : List (String × Ty) := xs.foldl (fun Γ q => (q.1, τ) :: Γ) Γ
+
+/-- `Normalizer::EnumDeclaration`, iterated: one quantifier per variable, each over (a copy of) the domain -/
+def nest (t : Tok) (d : TokData) (lo hi : Int) (dom' body' : Ast) : List EDecl → Ast
+  | [] => body'
+  | q :: qs => .node t d lo hi [declNode q, dom', nest t d lo hi dom' body' qs]
+
+inductive FragR (env : Env) (G : TCtx) (lvl : Nat) : Rz → TCtx → Ast → Ast → ExprTy → Prop where
+  | lit {σ : Rz} (Γ : TCtx) (n lo hi : Int) :
+      FragR env G lvl σ Γ (.node .LIT_INTEGER (.int n) lo hi []) (.node .LIT_INTEGER (.int n) lo hi []) (.ty (.base "Z"))
+  | arith {σ : Rz} {Γ : TCtx} {t : Tok} {a b a' b' : Ast} (d : TokData) (lo hi : Int) : isArith t →
+      FragR env G lvl σ Γ a a' (.ty (.base "Z")) → FragR env G lvl σ Γ b b' (.ty (.base "Z")) →
+      FragR env G lvl σ Γ (.node t d lo hi [a, b]) (.node t d lo hi [a', b']) (.ty (.base "Z"))
+  | card {σ : Rz} {Γ : TCtx} {a a' : Ast} {τ : Ty} (d : TokData) (lo hi : Int) : FragR env G lvl σ Γ a a' (.ty (.coll τ)) →
+      FragR env G lvl σ Γ (.node .CARD d lo hi [a]) (.node .CARD d lo hi [a']) (.ty (.base "Z"))
+  | cmp {σ : Rz} {Γ : TCtx} {t : Tok} {a b a' b' : Ast} (d : TokData) (lo hi : Int) : isIntCmp t →
+      FragR env G lvl σ Γ a a' (.ty (.base "Z")) → FragR env G lvl σ Γ b b' (.ty (.base "Z")) →
+      FragR env G lvl σ Γ (.node t d lo hi [a, b]) (.node t d lo hi [a', b']) .logic
+  | eq {σ : Rz} {Γ : TCtx} {t : Tok} {a b a' b' : Ast} {τ : Ty} (d : TokData) (lo hi : Int) : isEq t →
+      FragR env G lvl σ Γ a a' (.ty τ) → FragR env G lvl σ Γ b b' (.ty τ) →
+      FragR env G lvl σ Γ (.node t d lo hi [a, b]) (.node t d lo hi [a', b']) .logic
+  | not {σ : Rz} {Γ : TCtx} {a a' : Ast} (d : TokData) (lo hi : Int) : FragR env G lvl σ Γ a a' .logic →
+      FragR env G lvl σ Γ (.node .NOT d lo hi [a]) (.node .NOT d lo hi [a']) .logic
+  | conn {σ : Rz} {Γ : TCtx} {t : Tok} {a b a' b' : Ast} (d : TokData) (lo hi : Int) : isConn t →
+      FragR env G lvl σ Γ a a' .logic → FragR env G lvl σ Γ b b' .logic →
+      FragR env G lvl σ Γ (.node t d lo hi [a, b]) (.node t d lo hi [a', b']) .logic
+  | mem {σ : Rz} {Γ : TCtx} {t : Tok} {a b a' b' : Ast} {τ : Ty} (d : TokData) (lo hi : Int) : isMemTok t →
+      b.id ≠ .BOOLEAN → b'.id ≠ .BOOLEAN →
+      FragR env G lvl σ Γ a a' (.ty τ) → FragR env G lvl σ Γ b b' (.ty (.coll τ)) →
+      FragR env G lvl σ Γ (.node t d lo hi [a, b]) (.node t d lo hi [a', b']) .logic
+  | memPow {σ : Rz} {Γ : TCtx} {t : Tok} {a b a' b' : Ast} {τ : Ty} (d d' : TokData) (lo hi lo' hi' : Int) : isMemTok t →
+      FragR env G lvl σ Γ a a' (.ty (.coll τ)) → FragR env G lvl σ Γ b b' (.ty (.coll τ)) →
+      FragR env G lvl σ Γ (.node t d lo hi [a, .node .BOOLEAN d' lo' hi' [b]])
+        (.node t d lo hi [a', .node .BOOLEAN d' lo' hi' [b']]) .logic
+  | sub {σ : Rz} {Γ : TCtx} {t : Tok} {a b a' b' : Ast} {τ : Ty} (d : TokData) (lo hi : Int) : isSubTok t →
+      FragR env G lvl σ Γ a a' (.ty (.coll τ)) → FragR env G lvl σ Γ b b' (.ty (.coll τ)) →
+      FragR env G lvl σ Γ (.node t d lo hi [a, b]) (.node t d lo hi [a', b']) .logic
+  | empty {σ : Rz} (Γ : TCtx) {τ : Ty} (d : TokData) (lo hi : Int) : noAny τ = true →
+      FragR env G lvl σ Γ (.node .LIT_EMPTYSET d lo hi []) (.node .LIT_EMPTYSET d lo hi []) (.ty (.coll τ))
   /-- `Z`: typed, but every evaluation of it is the documented error `iterateInfinity` -/
-  | intset (Γ : TCtx) (d : TokData) (lo hi : Int) :
-      Frag env G lvl Γ (.node .LIT_INTSET d lo hi []) (.ty (.coll (.base "Z")))
-  | enum {Γ : TCtx} {τ : Ty} (d : TokData) (lo hi : Int) (ks : List Ast) : ks ≠ [] →
-      (∀ k ∈ ks, Frag env G lvl Γ k (.ty τ)) → Frag env G lvl Γ (.node .NT_ENUMERATION d lo hi ks) (.ty (.coll τ))
-  | tuple {Γ : TCtx} (d : TokData) (lo hi : Int) (ks : List Ast) (ts : List Ty) : ks.length ≥ 2 →
-      ks.length = ts.length → (∀ p ∈ ks.zip ts, Frag env G lvl Γ p.1 (.ty p.2)) →
-      Frag env G lvl Γ (.node .NT_TUPLE d lo hi ks) (.ty (.tuple ts))
-  | setOp {Γ : TCtx} {t : Tok} {a b : Ast} {τ : Ty} (d : TokData) (lo hi : Int) : isSetOp t →
-      Frag env G lvl Γ a (.ty (.coll τ)) → Frag env G lvl Γ b (.ty (.coll τ)) →
-      Frag env G lvl Γ (.node t d lo hi [a, b]) (.ty (.coll τ))
-  | bool {Γ : TCtx} {a : Ast} {τ : Ty} (d : TokData) (lo hi : Int) : Frag env G lvl Γ a (.ty τ) →
-      Frag env G lvl Γ (.node .BOOL d lo hi [a]) (.ty (.coll τ))
-  | debool {Γ : TCtx} {a : Ast} {τ : Ty} (d : TokData) (lo hi : Int) : Frag env G lvl Γ a (.ty (.coll τ)) →
-      Frag env G lvl Γ (.node .DEBOOL d lo hi [a]) (.ty τ)
-  | reduce {Γ : TCtx} {a : Ast} {τ : Ty} (d : TokData) (lo hi : Int) : Frag env G lvl Γ a (.ty (.coll (.coll τ))) →
-      Frag env G lvl Γ (.node .REDUCE d lo hi [a]) (.ty (.coll τ))
-  | smallpr {Γ : TCtx} {a : Ast} {ts : List Ty} {τ : Ty} (idx : List Int) (lo hi : Int) :
-      Frag env G lvl Γ a (.ty (.tuple ts)) → projTy ts idx = some τ →
-      Frag env G lvl Γ (.node .SMALLPR (.tuple idx) lo hi [a]) (.ty τ)
-  | bigpr {Γ : TCtx} {a : Ast} {ts : List Ty} {τ : Ty} (idx : List Int) (lo hi : Int) :
-      Frag env G lvl Γ a (.ty (.coll (.tuple ts))) → projTy ts idx = some τ →
-      Frag env G lvl Γ (.node .BIGPR (.tuple idx) lo hi [a]) (.ty (.coll τ))
+  | intset {σ : Rz} (Γ : TCtx) (d : TokData) (lo hi : Int) :
+      FragR env G lvl σ Γ (.node .LIT_INTSET d lo hi []) (.node .LIT_INTSET d lo hi []) (.ty (.coll (.base "Z")))
+  | enum {σ : Rz} {Γ : TCtx} {τ : Ty} (d : TokData) (lo hi : Int) (ks ks' : List Ast) : ks ≠ [] → ks.length = ks'.length →
+      (∀ q ∈ ks.zip ks', FragR env G lvl σ Γ q.1 q.2 (.ty τ)) →
+      FragR env G lvl σ Γ (.node .NT_ENUMERATION d lo hi ks) (.node .NT_ENUMERATION d lo hi ks') (.ty (.coll τ))
+  | tuple {σ : Rz} {Γ : TCtx} (d : TokData) (lo hi : Int) (ks ks' : List Ast) (ts : List Ty) : ks.length ≥ 2 →
+      ks.length = ts.length → ks.length = ks'.length → (∀ q ∈ (ks.zip ks').zip ts, FragR env G lvl σ Γ q.1.1 q.1.2 (.ty q.2)) →
+      FragR env G lvl σ Γ (.node .NT_TUPLE d lo hi ks) (.node .NT_TUPLE d lo hi ks') (.ty (.tuple ts))
+  | setOp {σ : Rz} {Γ : TCtx} {t : Tok} {a b a' b' : Ast} {τ : Ty} (d : TokData) (lo hi : Int) : isSetOp t →
+      FragR env G lvl σ Γ a a' (.ty (.coll τ)) → FragR env G lvl σ Γ b b' (.ty (.coll τ)) →
+      FragR env G lvl σ Γ (.node t d lo hi [a, b]) (.node t d lo hi [a', b']) (.ty (.coll τ))
+  | bool {σ : Rz} {Γ : TCtx} {a a' : Ast} {τ : Ty} (d : TokData) (lo hi : Int) : FragR env G lvl σ Γ a a' (.ty τ) →
+      FragR env G lvl σ Γ (.node .BOOL d lo hi [a]) (.node .BOOL d lo hi [a']) (.ty (.coll τ))
+  | debool {σ : Rz} {Γ : TCtx} {a a' : Ast} {τ : Ty} (d : TokData) (lo hi : Int) : FragR env G lvl σ Γ a a' (.ty (.coll τ)) →
+      FragR env G lvl σ Γ (.node .DEBOOL d lo hi [a]) (.node .DEBOOL d lo hi [a']) (.ty τ)
+  | reduce {σ : Rz} {Γ : TCtx} {a a' : Ast} {τ : Ty} (d : TokData) (lo hi : Int) : FragR env G lvl σ Γ a a' (.ty (.coll (.coll τ))) →
+      FragR env G lvl σ Γ (.node .REDUCE d lo hi [a]) (.node .REDUCE d lo hi [a']) (.ty (.coll τ))
+  | smallpr {σ : Rz} {Γ : TCtx} {a a' : Ast} {ts : List Ty} {τ : Ty} (idx : List Int) (lo hi : Int) :
+      FragR env G lvl σ Γ a a' (.ty (.tuple ts)) → projTy ts idx = some τ →
+      FragR env G lvl σ Γ (.node .SMALLPR (.tuple idx) lo hi [a]) (.node .SMALLPR (.tuple idx) lo hi [a']) (.ty τ)
+  | bigpr {σ : Rz} {Γ : TCtx} {a a' : Ast} {ts : List Ty} {τ : Ty} (idx : List Int) (lo hi : Int) :
+      FragR env G lvl σ Γ a a' (.ty (.coll (.tuple ts))) → projTy ts idx = some τ →
+      FragR env G lvl σ Γ (.node .BIGPR (.tuple idx) lo hi [a]) (.node .BIGPR (.tuple idx) lo hi [a']) (.ty (.coll τ))
   /-- `ℬ(a)` on a small operand: the reference semantics enumerates power sets of at most
   `2^POW_BOUND` members -/
-  | pow {Γ : TCtx} {a : Ast} {τ : Ty} (d : TokData) (lo hi : Int) : Frag env G lvl Γ a (.ty (.coll τ)) →
+  | pow {σ : Rz} {Γ : TCtx} {a a' : Ast} {τ : Ty} (d : TokData) (lo hi : Int) : FragR env G lvl σ Γ a a' (.ty (.coll τ)) →
       (∀ fuel ρ xs, denote (senvOf env) fuel ρ a = some (.val (.s xs)) → xs.length ≤ POW_BOUND) →
-      Frag env G lvl Γ (.node .BOOLEAN d lo hi [a]) (.ty (.coll (.coll τ)))
-  | decart {Γ : TCtx} (d : TokData) (lo hi : Int) (ks : List Ast) (ts : List Ty) : ks.length ≥ 2 →
-      ks.length = ts.length → (∀ p ∈ ks.zip ts, Frag env G lvl Γ p.1 (.ty (.coll p.2))) →
-      Frag env G lvl Γ (.node .DECART d lo hi ks) (.ty (.coll (.tuple ts)))
-  | glob (Γ : TCtx) {τ : Ty} (g : String) (lo hi : Int) : 2 ≤ lvl → lookup g G = some τ →
-      Frag env G lvl Γ (.node .ID_GLOBAL (.text g) lo hi []) (.ty τ)
-  | loc (Γ : TCtx) {τ : Ty} (x : String) (lo hi : Int) : 3 ≤ lvl → lookup x Γ = some τ →
-      Frag env G lvl Γ (.node .ID_LOCAL (.text x) lo hi []) (.ty τ)
-  | quant {Γ : TCtx} {t : Tok} {dom body : Ast} {τ : Ty} (d : TokData) (lo hi : Int) (x : String) (dlo dhi : Int) :
-      3 ≤ lvl → isQuant t → lookup x Γ = none → lookup x env.globals = none →
-      Frag env G lvl Γ dom (.ty (.coll τ)) → Frag env G lvl ((x, τ) :: Γ) body .logic →
-      Frag env G lvl Γ (.node t d lo hi [.node .ID_LOCAL (.text x) dlo dhi [], dom, body]) .logic
-  | decl {Γ : TCtx} {dom body : Ast} {τ : Ty} (d : TokData) (lo hi : Int) (x : String) (dlo dhi : Int) :
-      3 ≤ lvl → lookup x Γ = none → lookup x env.globals = none →
-      Frag env G lvl Γ dom (.ty (.coll τ)) → Frag env G lvl ((x, τ) :: Γ) body .logic →
-      Frag env G lvl Γ (.node .NT_DECLARATIVE_EXPR d lo hi [.node .ID_LOCAL (.text x) dlo dhi [], dom, body])
-        (.ty (.coll τ))
+      FragR env G lvl σ Γ (.node .BOOLEAN d lo hi [a]) (.node .BOOLEAN d lo hi [a']) (.ty (.coll (.coll τ)))
+  | decart {σ : Rz} {Γ : TCtx} (d : TokData) (lo hi : Int) (ks ks' : List Ast) (ts : List Ty) : ks.length ≥ 2 →
+      ks.length = ts.length → ks.length = ks'.length →
+      (∀ q ∈ (ks.zip ks').zip ts, FragR env G lvl σ Γ q.1.1 q.1.2 (.ty (.coll q.2))) →
+      FragR env G lvl σ Γ (.node .DECART d lo hi ks) (.node .DECART d lo hi ks') (.ty (.coll (.tuple ts)))
+  | glob {σ : Rz} (Γ : TCtx) {τ : Ty} (g : String) (lo hi : Int) : 2 ≤ lvl → lookup g G = some τ →
+      FragR env G lvl σ Γ (.node .ID_GLOBAL (.text g) lo hi []) (.node .ID_GLOBAL (.text g) lo hi []) (.ty τ)
+  | loc {σ : Rz} (Γ : TCtx) {τ : Ty} (x : String) (lo hi : Int) : 3 ≤ lvl → lookup x Γ = some τ → lookup x σ = none →
+      FragR env G lvl σ Γ (.node .ID_LOCAL (.text x) lo hi []) (.node .ID_LOCAL (.text x) lo hi []) (.ty τ)
+  /-- a component of a tuple pattern: in the normal form the projection of the generated variable -/
+  | locPr {σ : Rz} (Γ : TCtx) {τ : Ty} (x nn : String) (k : Int) (lo hi : Int) : 6 ≤ lvl → lookup x Γ = some τ →
+      lookup x σ = some (nn, k) →
+      FragR env G lvl σ Γ (.node .ID_LOCAL (.text x) lo hi [])
+        (.node .SMALLPR (.tuple [k]) lo hi [.node .ID_LOCAL (.text nn) lo hi []]) (.ty τ)
+  | quant {σ : Rz} {Γ : TCtx} {t : Tok} {dom body dom' body' : Ast} {τ : Ty} (d : TokData) (lo hi : Int) (x : String)
+      (dlo dhi : Int) :
+      3 ≤ lvl → isQuant t → lookup x Γ = none → lookup x env.globals = none → (∀ r ∈ σ, r.2.1 ≠ x) →
+      FragR env G lvl σ Γ dom dom' (.ty (.coll τ)) → FragR env G lvl σ ((x, τ) :: Γ) body body' .logic →
+      FragR env G lvl σ Γ (.node t d lo hi [.node .ID_LOCAL (.text x) dlo dhi [], dom, body])
+        (.node t d lo hi [.node .ID_LOCAL (.text x) dlo dhi [], dom', body']) .logic
+  | decl {σ : Rz} {Γ : TCtx} {dom body dom' body' : Ast} {τ : Ty} (d : TokData) (lo hi : Int) (x : String) (dlo dhi : Int) :
+      3 ≤ lvl → lookup x Γ = none → lookup x env.globals = none → (∀ r ∈ σ, r.2.1 ≠ x) →
+      FragR env G lvl σ Γ dom dom' (.ty (.coll τ)) → FragR env G lvl σ ((x, τ) :: Γ) body body' .logic →
+      FragR env G lvl σ Γ (.node .NT_DECLARATIVE_EXPR d lo hi [.node .ID_LOCAL (.text x) dlo dhi [], dom, body])
+        (.node .NT_DECLARATIVE_EXPR d lo hi [.node .ID_LOCAL (.text x) dlo dhi [], dom', body']) (.ty (.coll τ))
+  /-- `R{x := init | step}` -/
+  | recShort {σ : Rz} {Γ : TCtx} {init body init' body' : Ast} {τ : Ty} (d : TokData) (lo hi : Int) (x : String) (dlo dhi : Int) :
+      4 ≤ lvl → lookup x Γ = none → lookup x env.globals = none → (∀ r ∈ σ, r.2.1 ≠ x) →
+      FragR env G lvl σ Γ init init' (.ty τ) → FragR env G lvl σ ((x, τ) :: Γ) body body' (.ty τ) →
+      FragR env G lvl σ Γ (.node .NT_RECURSIVE_SHORT d lo hi [.node .ID_LOCAL (.text x) dlo dhi [], init, body])
+        (.node .NT_RECURSIVE_SHORT d lo hi [.node .ID_LOCAL (.text x) dlo dhi [], init', body']) (.ty τ)
+  /-- `R{x := init | cond | step}` -/
+  | recFull {σ : Rz} {Γ : TCtx} {init cond body init' cond' body' : Ast} {τ : Ty} (d : TokData) (lo hi : Int) (x : String)
+      (dlo dhi : Int) :
+      4 ≤ lvl → lookup x Γ = none → lookup x env.globals = none → (∀ r ∈ σ, r.2.1 ≠ x) →
+      FragR env G lvl σ Γ init init' (.ty τ) → FragR env G lvl σ ((x, τ) :: Γ) cond cond' .logic →
+      FragR env G lvl σ ((x, τ) :: Γ) body body' (.ty τ) →
+      FragR env G lvl σ Γ (.node .NT_RECURSIVE_FULL d lo hi [.node .ID_LOCAL (.text x) dlo dhi [], init, cond, body])
+        (.node .NT_RECURSIVE_FULL d lo hi [.node .ID_LOCAL (.text x) dlo dhi [], init', cond', body']) (.ty τ)
+  /-- `I{value | blocks}`: every block is typed after the blocks before it, the value after all of them -/
+  | imp {σ : Rz} {Γ : TCtx} {value value' : Ast} {τ : Ty} (d : TokData) (lo hi : Int) (bs : List Blk) : 4 ≤ lvl → bs ≠ [] →
+      noAny τ = true →
+      (∀ pre b post, bs = pre ++ b :: post → b.side env σ (ctxAfter Γ pre)) →
+      (∀ pre b post, bs = pre ++ b :: post → FragR env G lvl σ (ctxAfter Γ pre) b.expr b.expr' b.ety) →
+      FragR env G lvl σ (ctxAfter Γ bs) value value' (.ty τ) →
+      FragR env G lvl σ Γ (.node .NT_IMPERATIVE_EXPR d lo hi (value :: bs.map Blk.src))
+        (.node .NT_IMPERATIVE_EXPR d lo hi (value' :: bs.map Blk.core)) (.ty (.coll τ))
+  /-- `Q x₁,…,xₙ ∈ S . P` (`n ≥ 2` distinct new plain variables): the normal form nests `n` quantifiers, each
+  over a copy of the domain; `S` is typed outside the variables, `P` inside all of them -/
+  | quantEnum {σ : Rz} {Γ : TCtx} {t : Tok} {dom body dom' body' : Ast} {τ : Ty} (d dd : TokData) (lo hi dlo dhi : Int)
+      (xs : List EDecl) :
+      5 ≤ lvl → isQuant t → 2 ≤ xs.length → (xs.map (·.1)).Nodup →
+      (∀ q ∈ xs, lookup q.1 Γ = none ∧ lookup q.1 env.globals = none ∧ ∀ r ∈ σ, r.2.1 ≠ q.1) →
+      FragR env G lvl σ Γ dom dom' (.ty (.coll τ)) → FragR env G lvl σ (declCtx τ Γ xs) body body' .logic →
+      FragR env G lvl σ Γ (.node t d lo hi [.node .NT_ENUM_DECL dd dlo dhi (xs.map declNode), dom, body])
+        (nest t d lo hi dom' body' xs) .logic
+  /-- `Q (x₁,…,xₙ) ∈ S . P` with a flat tuple pattern: the normal form binds ONE generated variable `nn` - the
+  candidate name `'@'` + component names, which must be new: no variable in scope, no global, no component, no
+  other generated name in use - and reads the components as `pr_i(nn)` -/
+  | quantTup {σ : Rz} {Γ : TCtx} {t : Tok} {dom body dom' body' : Ast} {ts : List Ty} (d : TokData) (lo hi : Int)
+      (pd : TokData) (plo phi : Int) (xs : List EDecl) (nn : String) :
+      6 ≤ lvl → isQuant t → xs.length = ts.length → 2 ≤ xs.length → (xs.map (·.1)).Nodup →
+      (∀ q ∈ xs, lookup q.1 Γ = none ∧ lookup q.1 env.globals = none ∧ ∀ r ∈ σ, r.2.1 ≠ q.1) →
+      lookup nn Γ = none → lookup nn env.globals = none → nn ∉ xs.map (·.1) → (∀ r ∈ σ, r.2.1 ≠ nn) →
+      nn = candName (xs.map (·.1)) →
+      FragR env G lvl σ Γ dom dom' (.ty (.coll (.tuple ts))) →
+      FragR env G lvl (patRz nn xs 1 ++ σ) (patCtx Γ xs ts) body body' .logic →
+      FragR env G lvl σ Γ (.node t d lo hi [.node .NT_TUPLE_DECL pd plo phi (xs.map declNode), dom, body])
+        (.node t d lo hi [.node .ID_LOCAL (.text nn) plo phi [], dom', body']) .logic
+  /-- `D{(x₁,…,xₙ) ∈ S | P}` -/
+  | declTup {σ : Rz} {Γ : TCtx} {dom body dom' body' : Ast} {ts : List Ty} (d : TokData) (lo hi : Int)
+      (pd : TokData) (plo phi : Int) (xs : List EDecl) (nn : String) :
+      6 ≤ lvl → xs.length = ts.length → 2 ≤ xs.length → (xs.map (·.1)).Nodup →
+      (∀ q ∈ xs, lookup q.1 Γ = none ∧ lookup q.1 env.globals = none ∧ ∀ r ∈ σ, r.2.1 ≠ q.1) →
+      lookup nn Γ = none → lookup nn env.globals = none → nn ∉ xs.map (·.1) → (∀ r ∈ σ, r.2.1 ≠ nn) →
+      nn = candName (xs.map (·.1)) →
+      FragR env G lvl σ Γ dom dom' (.ty (.coll (.tuple ts))) →
+      FragR env G lvl (patRz nn xs 1 ++ σ) (patCtx Γ xs ts) body body' .logic →
+      FragR env G lvl σ Γ (.node .NT_DECLARATIVE_EXPR d lo hi [.node .NT_TUPLE_DECL pd plo phi (xs.map declNode), dom, body])
+        (.node .NT_DECLARATIVE_EXPR d lo hi [.node .ID_LOCAL (.text nn) plo phi [], dom', body']) (.ty (.coll (.tuple ts)))
+
+/-- an expression of the fragment that is its own normal form (always the case up to level 4) -/
+abbrev Frag (env : Env) (G : TCtx) (lvl : Nat) (Γ : TCtx) (e : Ast) (τ : ExprTy) : Prop := FragR env G lvl [] Γ e e τ
 
 /-- the interpretation gives every typed global a canonical value of its (R0-free) type -/
 def GlobalsOK (env : Env) (G : TCtx) : Prop :=
@@ -105,12 +262,21 @@ def DocErr (eid : Nat) : Prop :=
 
 /-! ## invariant between the slot table and the scoped environment -/
 
-structure Inv (env : Env) (c : Ctx) (Γ : TCtx) (ρ : LEnv) (st : St) : Prop where
+/-- how the evaluator state holds the value `v` of the variable `x`: in the slot of `x`, or - for a component of
+a tuple pattern - as a component of the tuple in the slot of the generated variable -/
+def Holds (c : Ctx) (σ : Rz) (st : St) (x : String) (v : Val) : Prop :=
+  match lookup x σ with
+  | none => ∀ i, lookup x c.ids = some i → st.data[i]? = some v
+  | some (nn, k) => ∃ i w, lookup nn c.ids = some i ∧ st.data[i]? = some w ∧ Val.component w k = some v
+
+structure Inv (env : Env) (c : Ctx) (σ : Rz) (Γ : TCtx) (ρ : LEnv) (st : St) : Prop where
   range : ∀ n i, lookup n c.ids = some i → i < st.data.length
   inj : ∀ n1 n2 i, lookup n1 c.ids = some i → lookup n2 c.ids = some i → n1 = n2
   glob : ∀ g v i, lookup g env.globals = some v → lookup g c.ids = some i → st.data[i]? = some v
   loc : ∀ x τ, lookup x Γ = some τ → lookup x env.globals = none ∧ noAny τ = true ∧
-    ∃ v, ρ.find x = some (.val v) ∧ WF v τ ∧ ∀ i, lookup x c.ids = some i → st.data[i]? = some v
+    ∃ v, ρ.find x = some (.val v) ∧ WF v τ ∧ Holds c σ st x v
+  /-- realised variables are in scope; generated variables are neither source variables in scope nor globals -/
+  dom : ∀ x r, lookup x σ = some r → (∃ τ, lookup x Γ = some τ) ∧ lookup r.1 Γ = none ∧ lookup r.1 env.globals = none
 
 theorem lookup_cons_self {α} (x : String) (v : α) (l : List (String × α)) : lookup x ((x, v) :: l) = some v := by
   simp [lookup]
@@ -119,6 +285,16 @@ theorem lookup_cons_ne {α} {x y : String} (v : α) (l : List (String × α)) (h
     lookup y ((x, v) :: l) = lookup y l := by
   simp [lookup, h]
 
+theorem lookup_mem {α} {x : String} {v : α} : ∀ {l : List (String × α)}, lookup x l = some v → (x, v) ∈ l
+  | [], h => by simp [lookup] at h
+  | (k, w) :: l, h => by
+    simp only [lookup] at h
+    split at h
+    · rename_i e
+      have : x = k := by simpa using e
+      injection h with h; subst h; subst this; simp
+    · exact List.mem_cons_of_mem _ (lookup_mem h)
+
 theorem find_val_self (x : String) (v : Val) (ρ : LEnv) : (LEnv.val x v ρ).find x = some (.val v) := by
   simp [LEnv.find]
 
@@ -126,12 +302,36 @@ theorem find_val_ne {x y : String} (v : Val) (ρ : LEnv) (h : y ≠ x) : (LEnv.v
   have : (x == y) = false := by simp [Ne.symm h]
   simp [LEnv.find, this]
 
-/-- entering a binder: the variable's slot is overwritten -/
-theorem Inv.bind {env : Env} {c : Ctx} {Γ : TCtx} {ρ : LEnv} {st : St} (h : Inv env c Γ ρ st) {x : String} {τ : Ty}
+/-- a state that differs from `st` only in slot `var` holds what `st` holds, for variables that do not use that slot -/
+theorem Holds.of_ne {c : Ctx} {σ : Rz} {st s : St} {x : String} {v : Val} {var : Nat}
+    (h : Holds c σ st x v) (hget : ∀ i, i ≠ var → s.data[i]? = st.data[i]?)
+    (h1 : lookup x σ = none → ∀ i, lookup x c.ids = some i → i ≠ var)
+    (h2 : ∀ nn k, lookup x σ = some (nn, k) → ∀ i, lookup nn c.ids = some i → i ≠ var) : Holds c σ s x v := by
+  unfold Holds at h ⊢
+  cases hl : lookup x σ with
+  | none =>
+    rw [hl] at h
+    intro i hi
+    rw [hget i (h1 hl i hi)]; exact h i hi
+  | some r =>
+    obtain ⟨nn, k⟩ := r
+    rw [hl] at h
+    obtain ⟨i, w, a1, a2, a3⟩ := h
+    exact ⟨i, w, a1, by rw [hget i (h2 nn k hl i a1)]; exact a2, a3⟩
+
+/-- entering a binder over a plain variable: the variable's slot is overwritten -/
+theorem Inv.bind {env : Env} {c : Ctx} {σ : Rz} {Γ : TCtx} {ρ : LEnv} {st : St} (h : Inv env c σ Γ ρ st) {x : String} {τ : Ty}
     {v : Val} {var : Nat} (n : Nat) (hx : lookup x Γ = none) (hg : lookup x env.globals = none)
+    (hσ : ∀ r ∈ σ, r.2.1 ≠ x)
     (hvar : lookup x c.ids = some var) (hn : noAny τ = true) (hv : WF v τ) :
-    Inv env c ((x, τ) :: Γ) (.val x v ρ) { data := st.data.set var v, iters := n } := by
+    Inv env c σ ((x, τ) :: Γ) (.val x v ρ) { data := st.data.set var v, iters := n } := by
   have hr := h.range x var hvar
+  have hxσ : lookup x σ = none := by
+    cases hl : lookup x σ with
+    | none => rfl
+    | some r =>
+      obtain ⟨τ', hτ'⟩ := (h.dom x r hl).1
+      rw [hx] at hτ'; cases hτ'
   constructor
   · intro m i hm; simp; exact h.range m i hm
   · exact h.inj
@@ -142,37 +342,105 @@ theorem Inv.bind {env : Env} {c : Ctx} {Γ : TCtx} {ρ : LEnv} {st : St} (h : In
       subst this; rw [hg] at hw; cases hw
     simp only [List.getElem?_set_ne hne]
     exact h.glob g w i hw hi
-  · intro y σ hy
+  · intro y σ' hy
     by_cases e : y = x
     · subst e
       rw [lookup_cons_self] at hy
       injection hy with hy; subst hy
       refine ⟨hg, hn, v, find_val_self _ _ _, hv, ?_⟩
+      unfold Holds
+      rw [hxσ]
       intro i hi
       rw [hvar] at hi; injection hi with hi; subst hi
       simp [hr]
     · rw [lookup_cons_ne _ _ e] at hy
-      obtain ⟨a1, a2, w, a3, a4, a5⟩ := h.loc y σ hy
+      obtain ⟨a1, a2, w, a3, a4, a5⟩ := h.loc y σ' hy
       refine ⟨a1, a2, w, by rw [find_val_ne _ _ e]; exact a3, a4, ?_⟩
-      intro i hi
-      have hne : var ≠ i := by
-        intro e'; subst e'
-        exact e (h.inj y x var hi hvar)
-      simp only [List.getElem?_set_ne hne]
-      exact a5 i hi
+      refine a5.of_ne (var := var) (fun i hi => by simp [List.getElem?_set_ne (Ne.symm hi)]) ?_ ?_
+      · intro _ i hi e'; subst e'
+        exact e (h.inj y x i hi hvar)
+      · intro nn k hl i hi e'; subst e'
+        have := h.inj nn x i hi hvar
+        exact hσ (y, (nn, k)) (lookup_mem hl) this
+  · intro y r hl
+    obtain ⟨⟨τ', hτ'⟩, b1, b2⟩ := h.dom y r hl
+    have hyx : y ≠ x := by intro e; subst e; rw [hx] at hτ'; cases hτ'
+    have hrx : r.1 ≠ x := hσ (y, r) (lookup_mem hl)
+    exact ⟨⟨τ', by rw [lookup_cons_ne _ _ hyx]; exact hτ'⟩, by rw [lookup_cons_ne _ _ hrx]; exact b1, b2⟩
 
 /-- leaving a binder -/
-theorem Inv.unbind {env : Env} {c : Ctx} {Γ : TCtx} {ρ : LEnv} {st : St} {x : String} {τ : Ty} {v : Val}
-    (h : Inv env c ((x, τ) :: Γ) (.val x v ρ) st) (hx : lookup x Γ = none) : Inv env c Γ ρ st := by
-  refine ⟨h.range, h.inj, h.glob, ?_⟩
-  intro y σ hy
-  have e : y ≠ x := by intro e; subst e; rw [hx] at hy; cases hy
-  obtain ⟨a1, a2, w, a3, a4, a5⟩ := h.loc y σ (by rw [lookup_cons_ne _ _ e]; exact hy)
-  exact ⟨a1, a2, w, by rw [find_val_ne _ _ e] at a3; exact a3, a4, a5⟩
+theorem Inv.unbind {env : Env} {c : Ctx} {σ : Rz} {Γ : TCtx} {ρ : LEnv} {st : St} {x : String} {τ : Ty} {v : Val}
+    (h : Inv env c σ ((x, τ) :: Γ) (.val x v ρ) st) (hx : lookup x Γ = none) (hxσ : lookup x σ = none) :
+    Inv env c σ Γ ρ st := by
+  refine ⟨h.range, h.inj, h.glob, ?_, ?_⟩
+  · intro y σ' hy
+    have e : y ≠ x := by intro e; subst e; rw [hx] at hy; cases hy
+    obtain ⟨a1, a2, w, a3, a4, a5⟩ := h.loc y σ' (by rw [lookup_cons_ne _ _ e]; exact hy)
+    exact ⟨a1, a2, w, by rw [find_val_ne _ _ e] at a3; exact a3, a4, a5⟩
+  · intro y r hl
+    obtain ⟨⟨τ', hτ'⟩, b1, b2⟩ := h.dom y r hl
+    have hyx : y ≠ x := by intro e; subst e; rw [hxσ] at hl; cases hl
+    refine ⟨⟨τ', by rw [lookup_cons_ne _ _ hyx] at hτ'; exact hτ'⟩, ?_, b2⟩
+    by_cases e : r.1 = x
+    · rw [e]; exact hx
+    · rw [lookup_cons_ne _ _ e] at b1; exact b1
+
+/-- a name that is not in scope is not realised -/
+theorem Inv.sigma_none {env : Env} {c : Ctx} {σ : Rz} {Γ : TCtx} {ρ : LEnv} {st : St} (h : Inv env c σ Γ ρ st) {x : String}
+    (hx : lookup x Γ = none) : lookup x σ = none := by
+  cases hl : lookup x σ with
+  | none => rfl
+  | some r =>
+    obtain ⟨τ', hτ'⟩ := (h.dom x r hl).1
+    rw [hx] at hτ'; cases hτ'
+
+/-- only the slot table matters -/
+theorem Inv.of_data {env : Env} {c : Ctx} {σ : Rz} {Γ : TCtx} {ρ : LEnv} {st st' : St} (h : Inv env c σ Γ ρ st)
+    (e : st'.data = st.data) : Inv env c σ Γ ρ st' := by
+  refine ⟨?_, h.inj, ?_, ?_, h.dom⟩
+  · rw [e]; exact h.range
+  · rw [e]; exact h.glob
+  · intro x τ hx
+    obtain ⟨a1, a2, v, a3, a4, a5⟩ := h.loc x τ hx
+    refine ⟨a1, a2, v, a3, a4, ?_⟩
+    unfold Holds at a5 ⊢
+    rw [e]; exact a5
+
+theorem set_self {α} : ∀ (d : List α) (i : Nat) (w : α), d[i]? = some w → d.set i w = d
+  | [], _, _, h => by simp at h
+  | a :: d, 0, w, h => by simp at h; simp [h]
+  | a :: d, i + 1, w, h => by simp at h; simp [set_self d i w h]
+
+/-- a state that differs from one satisfying the invariant only in the slot of a name that is neither a variable
+in scope, nor a global, nor a generated variable in use -/
+theorem Inv.of_set {env : Env} {c : Ctx} {σ : Rz} {Γ : TCtx} {ρ : LEnv} {st s : St} {x : String} {var : Nat} {w : Val}
+    (h : Inv env c σ Γ ρ st) (hx : lookup x Γ = none) (hg : lookup x env.globals = none) (hσ : ∀ r ∈ σ, r.2.1 ≠ x)
+    (hvar : lookup x c.ids = some var) (e : s.data.set var w = st.data) : Inv env c σ Γ ρ s := by
+  have hlen : s.data.length = st.data.length := by rw [← e]; simp
+  have hget : ∀ i, i ≠ var → s.data[i]? = st.data[i]? := by
+    intro i hi
+    rw [← e, List.getElem?_set_ne (Ne.symm hi)]
+  refine ⟨?_, h.inj, ?_, ?_, h.dom⟩
+  · intro n i hn; rw [hlen]; exact h.range n i hn
+  · intro g v i hv hi
+    have hne : i ≠ var := by
+      intro e'; subst e'
+      have := h.inj x g i hvar hi
+      subst this; rw [hg] at hv; cases hv
+    rw [hget i hne]; exact h.glob g v i hv hi
+  · intro y σ' hy
+    obtain ⟨a1, a2, v, a3, a4, a5⟩ := h.loc y σ' hy
+    refine ⟨a1, a2, v, a3, a4, a5.of_ne hget ?_ ?_⟩
+    · intro _ i hi e'; subst e'
+      have := h.inj y x i hi hvar
+      subst this; rw [hx] at hy; cases hy
+    · intro nn k hl i hi e'; subst e'
+      have := h.inj nn x i hi hvar
+      exact hσ (y, (nn, k)) (lookup_mem hl) this
 
 /-- the iteration counter is not part of the invariant -/
-theorem Inv.iters {env : Env} {c : Ctx} {Γ : TCtx} {ρ : LEnv} {st : St} (h : Inv env c Γ ρ st) (n : Nat) :
-    Inv env c Γ ρ { st with iters := n } := ⟨h.range, h.inj, h.glob, h.loc⟩
+theorem Inv.iters {env : Env} {c : Ctx} {σ : Rz} {Γ : TCtx} {ρ : LEnv} {st : St} (h : Inv env c σ Γ ρ st) (n : Nat) :
+    Inv env c σ Γ ρ { st with iters := n } := h.of_data rfl
 
 /-! ## outcomes -/
 
@@ -180,11 +448,12 @@ theorem Inv.iters {env : Env} {c : Ctx} {Γ : TCtx} {ρ : LEnv} {st : St} (h : I
 def BadF (f : Fail) : Prop := f = .outOfFuel ∨ ∃ e pos, f = .err e pos ∧ DocErr e
 def Bad {α} (r : R α) : Prop := ∃ f k, r = .fail f k ∧ BadF f
 
-/-- the evaluator's answer is the reference value, well-formed at the type, and the invariant survives -/
+/-- the evaluator's answer is the reference value (at the evaluator's fuel and at every larger one),
+well-formed at the type, and the invariant survives -/
 def Good (env : Env) (fuel : Nat) (ρ : LEnv) (a : Ast) (P : St → Prop) : ExprTy → R V → Prop
   | .ty ty, r => ∃ v st', r = .ok (.val v) st' ∧ P st' ∧ WF v ty ∧ noAny ty = true ∧
-      denote (senvOf env) fuel ρ a = some (.val v)
-  | .logic, r => ∃ b st', r = .ok (.bool b) st' ∧ P st' ∧ denote (senvOf env) fuel ρ a = some (.bool b)
+      ∀ f', fuel ≤ f' → denote (senvOf env) f' ρ a = some (.val v)
+  | .logic, r => ∃ b st', r = .ok (.bool b) st' ∧ P st' ∧ ∀ f', fuel ≤ f' → denote (senvOf env) f' ρ a = some (.bool b)
 
 def Res (env : Env) (fuel : Nat) (ρ : LEnv) (a : Ast) (P : St → Prop) (τ : ExprTy) (r : R V) : Prop :=
   Good env fuel ρ a P τ r ∨ Bad r
@@ -220,28 +489,34 @@ theorem kAny_cons_false (l : List (Option Bool)) : kAny (some false :: l) = kAny
 theorem kAll_nil : kAll [] = some true := by simp [kAll]
 theorem kAny_nil : kAny [] = some false := by simp [kAny]
 
-/-! ## the loops of the binders -/
+/-! ## the loops of the binders
 
-/-- `ViQuantifier`: if every run of the body (variable slot set, any counter) answers the reference
+The reference side is indexed by `ι` (the fuels `≥` the evaluator's): one run of the evaluator answers the
+reference value at every index. -/
+
+/-- `ViQuantifier`: if every run of the body (variable slot set, counter advanced) answers the reference
 truth value or fails in an allowed way, the loop answers the strong-Kleene fold or fails so -/
-theorem quantLoop_sim (P : St → Prop) (body : St → R V) (bodyD : Val → Option Bool) (var : Nat) (univ : Bool) (pos : Int) :
+theorem quantLoop_sim {ι : Type} (P : St → Prop) (body : St → R V) (bodyD : ι → Val → Option Bool) (var : Nat)
+    (univ : Bool) (pos : Int) :
     ∀ (dom : List Val),
-    (∀ x ∈ dom, ∀ st n, P st →
-      (∃ b st', body { data := st.data.set var x, iters := n } = .ok (.bool b) st' ∧ P st' ∧ bodyD x = some b) ∨
-      Bad (body { data := st.data.set var x, iters := n })) →
+    (∀ x ∈ dom, ∀ st, P st →
+      (∃ b st', body { data := st.data.set var x, iters := st.iters + 1 } = .ok (.bool b) st' ∧ P st' ∧
+        ∀ i, bodyD i x = some b) ∨
+      Bad (body { data := st.data.set var x, iters := st.iters + 1 })) →
     ∀ st, P st →
       (∃ b st', quantLoop body var univ pos dom st = .ok (.bool b) st' ∧ P st' ∧
-        (if univ then kAll (dom.map bodyD) else kAny (dom.map bodyD)) = some b) ∨
+        ∀ i, (if univ then kAll (dom.map (bodyD i)) else kAny (dom.map (bodyD i))) = some b) ∨
       Bad (quantLoop body var univ pos dom st)
   | [], _, st, hp => by
     left
     refine ⟨univ, st, by simp [quantLoop], hp, ?_⟩
+    intro i
     cases univ <;> simp [kAll_nil, kAny_nil]
   | x :: xs, h, st, hp => by
     simp only [quantLoop]
     split
     · exact Or.inr (bad_err _ _ _ (Or.inr (Or.inr (Or.inr (Or.inl rfl)))))
-    · rcases h x (by simp) st (st.iters + 1) hp with ⟨b, st', hb, hp', hd⟩ | ⟨f, k, hb, hf⟩
+    · rcases h x (by simp) st hp with ⟨b, st', hb, hp', hd⟩ | ⟨f, k, hb, hf⟩
       · simp only [hb]
         by_cases hbu : b = univ
         · subst hbu
@@ -250,26 +525,33 @@ theorem quantLoop_sim (P : St → Prop) (body : St → R V) (bodyD : Val → Opt
             ⟨r, st'', hr, hp'', hk⟩ | hbad
           · left
             refine ⟨r, st'', hr, hp'', ?_⟩
+            intro i
+            have h1 := hd i
+            have h2 := hk i
             cases b <;> simp_all [kAll_cons_true, kAny_cons_false]
           · exact Or.inr hbad
         · have : (b != univ) = true := by cases b <;> cases univ <;> simp_all
           simp only [this, if_true]
           left
           refine ⟨!univ, st', rfl, hp', ?_⟩
+          intro i
+          have h1 := hd i
           cases univ <;> cases b <;> simp_all [kAll_cons_false, kAny_cons_true]
       · simp only [hb]
         exact Or.inr ⟨f, k, rfl, hf⟩
 
 /-- `ViDeclarative`: the loop collects (by ordered insertion) exactly the members with the flag `true` -/
-theorem declLoop_sim (P : St → Prop) (body : St → R V) (bodyD : Val → Option Bool) (var : Nat) (pos : Int) (τ : Ty) :
+theorem declLoop_sim {ι : Type} (P : St → Prop) (body : St → R V) (bodyD : ι → Val → Option Bool) (var : Nat) (pos : Int)
+    (τ : Ty) :
     ∀ (dom : List Val), (∀ x ∈ dom, WF x τ) →
-    (∀ x ∈ dom, ∀ st n, P st →
-      (∃ b st', body { data := st.data.set var x, iters := n } = .ok (.bool b) st' ∧ P st' ∧ bodyD x = some b) ∨
-      Bad (body { data := st.data.set var x, iters := n })) →
+    (∀ x ∈ dom, ∀ st, P st →
+      (∃ b st', body { data := st.data.set var x, iters := st.iters + 1 } = .ok (.bool b) st' ∧ P st' ∧
+        ∀ i, bodyD i x = some b) ∨
+      Bad (body { data := st.data.set var x, iters := st.iters + 1 })) →
     ∀ acc st, P st → WF (.s acc) (.coll τ) →
       (∃ flags st', declLoop body var pos dom acc st = .ok (.val (.s (insertAll acc ((flags.filter (·.2)).map (·.1))))) st' ∧
         P st' ∧ WF (.s (insertAll acc ((flags.filter (·.2)).map (·.1)))) (.coll τ) ∧
-        dom.mapM (fun v => (bodyD v).map fun b => (v, b)) = some flags) ∨
+        ∀ i, dom.mapM (fun v => (bodyD i v).map fun b => (v, b)) = some flags) ∨
       Bad (declLoop body var pos dom acc st)
   | [], _, _, acc, st, hp, ha => by
     left
@@ -278,7 +560,7 @@ theorem declLoop_sim (P : St → Prop) (body : St → R V) (bodyD : Val → Opti
     simp only [declLoop]
     split
     · exact Or.inr (bad_err _ _ _ (Or.inr (Or.inr (Or.inr (Or.inl rfl)))))
-    · rcases h x (by simp) st (st.iters + 1) hp with ⟨b, st', hb, hp', hd⟩ | ⟨f, k, hb, hf⟩
+    · rcases h x (by simp) st hp with ⟨b, st', hb, hp', hd⟩ | ⟨f, k, hb, hf⟩
       · simp only [hb]
         have ha' : WF (.s (if b = true then Val.insert x acc else acc)) (.coll τ) := by
           cases b
@@ -290,7 +572,7 @@ theorem declLoop_sim (P : St → Prop) (body : St → R V) (bodyD : Val → Opti
           refine ⟨(x, b) :: flags, st'', ?_, hp'', ?_, ?_⟩
           · rw [hr]; cases b <;> simp [insertAll]
           · cases b <;> simpa [insertAll] using hwf
-          · simp [List.mapM_cons, hd, hm]
+          · intro i; simp [List.mapM_cons, hd i, hm i]
         · exact Or.inr hbad
       · simp only [hb]
         exact Or.inr ⟨f, k, rfl, hf⟩
